@@ -138,22 +138,17 @@ structure Structural (m : NLModel) (o : ConvOut) (SB : Bnds) : Prop where
   n0N : o.n0 ≤ o.N
   resN : ∀ d ∈ o.defs, d.res < o.N
   defd : ∀ v, o.n0 ≤ v → v < o.N → ∃ d ∈ o.defs, d.res = v
-  b0 : ∀ v, v < o.n0 → o.B v = m.B0 v
-  typed : ∀ d ∈ o.defs, typedDef o.B d = true
+  b0 : ∀ v, v < o.n0 → o.B0 v = m.B0 v
+  typed : ∀ d ∈ o.defs, typedDef o.B0 d = true
   rootsN : ∀ r ∈ o.roots, ∀ p ∈ r.body, p.2 < o.N
   objIdx : ∀ ob, o.obj = some ob → ob.quad = [] ∧ ∀ p ∈ ob.lin, p.2 < o.N
-  bAgree : ∀ v, v < o.N → o.B v = SB v
+  bAgree : ∀ v, v < o.N → o.B0 v = SB v
 
 theorem structural_of_vok (m : NLModel) (cfg : Cfg) (hv : m.vok = true) :
     Structural m (convert m cfg) (flatAll m).S.B := by
   obtain ⟨hI, hroots, hobj⟩ := flatAll_inv m hv
   have hsh := ctxDefs_shape (flatAll m).S.B (flatAll m).S.defs ((flatAll m).croots ++ (flatAll m).lroots) (flatAll m).obj
-  have hBfin : ∀ v, v < (convert m cfg).N → (convert m cfg).B v = (flatAll m).S.B v := by
-    intro v hv'
-    show ((convert m cfg).blocks.foldl (fun B b => extB B b.lo b.vars) (flatAll m).S.B) v = _
-    apply foldl_extB_below
-    intro b hb
-    exact Nat.lt_of_lt_of_le hv' (convDefs_lo_ge cfg _ _ _ b hb)
+  have hBfin : ∀ v, v < (convert m cfg).N → (convert m cfg).B0 v = (flatAll m).S.B v := fun _ _ => rfl
   have hmemS : ∀ d ∈ (convert m cfg).defs, ∃ d' ∈ (flatAll m).S.defs, d'.res = d.res ∧ d'.f = d.f := shape_mem hsh
   refine ⟨WF_shape _ _ _ (sameShape_symm hsh) hI.wf, hI.ge, ?_, ?_, ?_, ?_, hroots, hobj, hBfin⟩
   · intro d hd
@@ -170,7 +165,7 @@ theorem structural_of_vok (m : NLModel) (cfg : Cfg) (hv : m.vok = true) :
     have hres := hI.lt d' hd'
     have hvars := wf_vars_lt _ _ hI.wf d' hd'
     rw [← typedDef_shape _ d d' hr hf,
-      typedDef_congr (flatAll m).S.B (convert m cfg).B d' (hBfin _ hres) (fun v hv' => hBfin v (Nat.lt_trans (hvars v hv') hres))]
+      typedDef_congr (flatAll m).S.B (convert m cfg).B0 d' (hBfin _ hres) (fun v hv' => hBfin v (Nat.lt_trans (hvars v hv') hres))]
     exact hI.typed d' hd'
 
 end MpVerif.C01
